@@ -402,7 +402,7 @@ def run(run, tier, load):
                        '(4) the step functions of UntilExhausted, Take, IntoInterleavedSamples::next_sample and the wiring of lift. '
                        'The history-level statement (min-length then None forever, frames x channels samples) follows by induction over adaptor depth (paper step).')
     run.assumptions = ['user iterators/closures are opaque effects', 'Frame::from_samples returns None on a short iterator (C03)']
-    cfgs = ['std-debug'] + (['nostd'] if tier == 'thorough' else [])
+    cfgs = ['std-debug'] + (['nostd', 'std-release'] if tier == 'thorough' else [])
     for cfg in cfgs:
         fx_ = load(cfg, optional=(cfg == 'nostd'))
         if fx_ is None:
